@@ -45,9 +45,10 @@ def _expand_branch(mol_graph, current, anchor, recipe):
     for bdx, (n_mon, attributes, order) in enumerate(recipe):
         if bdx == 0:
             anchor = current
-        for _ in range(0, n_mon):
+        for mon in range(0, n_mon):
             mol_graph.add_node(current, **attributes)
-            mol_graph.add_edge(prev_node, current, order=order)
+            # only the first copy of an expanded node has the annotated order
+            mol_graph.add_edge(prev_node, current, order=order if mon == 0 else 1)
 
             prev_node = current
             current += 1
